@@ -496,14 +496,10 @@ theorem pix_scroll_exact (c : VesaFb.Cons) (f : VesaFb.Font) (fb : Array UInt8) 
         split <;> rfl
 
 
-/-- **write_frame (pixel), partial** — proved: with no font selected, or for any 32-bit
-coordinate outside the character grid, `Write` changes nothing and does not panic.
-NOT proved (covered by the correspondence run and the `write-frame` oracle only): for
-`1 ≤ x ≤ cols`, `1 ≤ y ≤ rows` the result equals `Spec.Console.pixWrite` — exactly the
-`gw × gh` pixels of the cell change, glyph bits to the packed foreground, the rest to the packed
-background — which needs the invariant of the running glyph mask / font offset of
-`write8/16/24` under `8(bpr-1) < gw ≤ 8·bpr`, `|data| = 256·bpr·gh`. -/
-theorem pix_write_frame_partial (c : VesaFb.Cons) (fb : Array UInt8) (ch fg bg x y : Nat)
+/-- **write_frame (pixel), outside the grid** — with no font selected, or for any 32-bit
+coordinate outside the character grid, `Write` changes nothing and does not panic (needs no
+domain hypothesis at all; the in-grid case is `pix_write_frame`). -/
+theorem pix_write_outside (c : VesaFb.Cons) (fb : Array UInt8) (ch fg bg x y : Nat)
     (h : c.font = none ∨ x < 1 ∨ x > c.cols ∨ y < 1 ∨ y > c.rows) :
     VesaFb.write c fb ch fg bg x y = some fb ∧
     (∀ f, c.font = some f → ∀ i, pixWrite c f (view8 fb) ch fg bg x y i = view8 fb i) := by
@@ -524,6 +520,140 @@ theorem pix_write_frame_partial (c : VesaFb.Cons) (fb : Array UInt8) (ch fg bg x
       · omega
     simp only [pixWrite, if_neg this]
 
+
+/-! ### writing a character -/
+
+/-- domain of the font: rows of `⌈gw/8⌉` bytes, 256 glyphs of data (the shipped fonts satisfy it:
+see the example on `Gen.C19.fonts` above) -/
+structure FontOk (f : VesaFb.Font) : Prop where
+  bpr : 8 * (f.bpr - 1) < f.gw ∧ f.gw ≤ 8 * f.bpr
+  size : f.data.size = 256 * f.bpr * f.gh
+  small : f.data.size < 4294967296
+
+/-- bytes stored per pixel by `write8/16/24` and `fill8/16/24` -/
+private def nbytes (c : VesaFb.Cons) : Nat := if c.bpp = 8 then 1 else if c.bpp = 15 ∨ c.bpp = 16 then 2 else 3
+
+private theorem pixelBytes_len {c : VesaFb.Cons} {f : VesaFb.Font} {fb : Array UInt8} (ok : PixOk c f fb)
+    (idx : Nat) (hidx : idx < 256) :
+    ∃ comp, VesaFb.pixelBytes c idx = some (some comp) ∧ colorBytes c idx = comp ∧
+      comp.length = nbytes c ∧ nbytes c ≤ c.bytesPerPixel := by
+  have hp : ∃ rgb, c.palette[idx]? = some rgb := by
+    have : idx < c.palette.size := by rw [ok.pal]; exact hidx
+    exact ⟨_, Array.getElem?_eq_getElem this⟩
+  obtain ⟨rgb, hrgb⟩ := hp
+  rcases bytes_cases ok with h | h | h | h | h
+  all_goals
+    obtain ⟨h1, h2⟩ := h
+    simp [VesaFb.pixelBytes, colorBytes, VesaFb.packColor16, VesaFb.packColor24, nbytes, h1, h2, hrgb]
+
+/-- painting a rectangle of whole cells, pixel `(px, py)` of it with the bytes `color px py` -/
+private theorem pix_rect {c : VesaFb.Cons} {f : VesaFb.Font} {fb : Array UInt8} (ok : PixOk c f fb)
+    (color : Nat → Nat → List UInt8) (len : Nat) (hlen : ∀ x y, (color x y).length = len) (hle : len ≤ c.bytesPerPixel)
+    (cx cy w h : Nat) (rx : 1 ≤ cx ∧ cx - 1 + w ≤ c.cols) (ry : 1 ≤ cy ∧ cy - 1 + h ≤ c.rows) :
+    VesaFb.fbOffset c (mul32 (sub32 cx 1) f.gw) (mul32 (sub32 cy 1) f.gh) =
+      ((cy - 1) * f.gh + c.offsetY) * c.pitch + (cx - 1) * f.gw * c.bytesPerPixel ∧
+    ∃ fb', rowsF color c.bytesPerPixel c.pitch (w * f.gw) (h * f.gh) fb
+        (((cy - 1) * f.gh + c.offsetY) * c.pitch + (cx - 1) * f.gw * c.bytesPerPixel) 0 = some fb' ∧
+      fb'.size = fb.size ∧
+      ∀ i, i < fb.size → view8 fb' i =
+        paint c (view8 fb) ((cx - 1) * f.gw) ((cx - 1 + w) * f.gw) (c.offsetY + (cy - 1) * f.gh)
+          (c.offsetY + (cy - 1 + h) * f.gh) color i := by
+  obtain ⟨g1, g2, g3, g4, g5, g6, g7, g8⟩ := geom ok
+  have hsize := ok.size
+  have hpitch := ok.pitch
+  have hcc : c.cols ≤ c.cols * f.gw := Nat.le_mul_of_pos_right _ ok.gw1
+  have hrr : c.rows ≤ c.rows * f.gh := Nat.le_mul_of_pos_right _ ok.gh1
+  have hxw : (cx - 1 + w) * f.gw ≤ c.cols * f.gw := Nat.mul_le_mul_right _ rx.2
+  have hyh : (cy - 1 + h) * f.gh ≤ c.rows * f.gh := Nat.mul_le_mul_right _ ry.2
+  rw [Nat.add_mul] at hxw hyh
+  have hpX : mul32 (sub32 cx 1) f.gw = (cx - 1) * f.gw := by
+    have : sub32 cx 1 = cx - 1 := by unfold sub32; omega
+    rw [this]; unfold mul32; omega
+  have hpY : mul32 (sub32 cy 1) f.gh = (cy - 1) * f.gh := by
+    have : sub32 cy 1 = cy - 1 := by unfold sub32; omega
+    rw [this]; unfold mul32; omega
+  rw [hpX, hpY]
+  have hrowb : ((cx - 1) * f.gw + w * f.gw) * c.bytesPerPixel ≤ c.width * c.bytesPerPixel :=
+    Nat.mul_le_mul_right _ (by omega)
+  rw [Nat.add_mul] at hrowb
+  have hR : ((cy - 1) * f.gh + c.offsetY + h * f.gh) * c.pitch ≤ c.height * c.pitch :=
+    Nat.mul_le_mul_right _ (by omega)
+  have hR0 : ((cy - 1) * f.gh + c.offsetY) * c.pitch ≤ ((cy - 1) * f.gh + c.offsetY + h * f.gh) * c.pitch :=
+    Nat.mul_le_mul_right _ (by omega)
+  have hoff : VesaFb.fbOffset c ((cx - 1) * f.gw) ((cy - 1) * f.gh) =
+      ((cy - 1) * f.gh + c.offsetY) * c.pitch + (cx - 1) * f.gw * c.bytesPerPixel := by
+    unfold VesaFb.fbOffset add32 mul32
+    have e1 : ((cy - 1) * f.gh + c.offsetY) % 4294967296 = (cy - 1) * f.gh + c.offsetY := by omega
+    rw [e1]
+    have ha : ((cy - 1) * f.gh + c.offsetY) * c.pitch % 4294967296 = ((cy - 1) * f.gh + c.offsetY) * c.pitch := by omega
+    have hb : (cx - 1) * f.gw * c.bytesPerPixel % 4294967296 = (cx - 1) * f.gw * c.bytesPerPixel := by omega
+    rw [ha, hb]; omega
+  refine ⟨hoff, ?_⟩
+  obtain ⟨fb', k1, k2, k3⟩ := rowsF_spec color c.bytesPerPixel len c.pitch (w * f.gw)
+    ((cx - 1) * f.gw * c.bytesPerPixel) hlen hle g3 (by omega) (h * f.gh) fb
+    ((cy - 1) * f.gh + c.offsetY) 0 (by omega) (by omega)
+  refine ⟨fb', k1, k2, fun i _ => ?_⟩
+  rw [getD_eq8, k3, view8_eq]
+  have hb := paint_bridge c fb len ((cx - 1) * f.gw) (w * f.gw) ((cy - 1) * f.gh + c.offsetY) (h * f.gh)
+    color hlen g3 i
+  rw [hb]
+  have e1 : (cx - 1) * f.gw + w * f.gw = (cx - 1 + w) * f.gw := by rw [Nat.add_mul]
+  have e2 : (cy - 1) * f.gh + c.offsetY = c.offsetY + (cy - 1) * f.gh := by omega
+  have e3 : (cy - 1) * f.gh + c.offsetY + h * f.gh = c.offsetY + (cy - 1 + h) * f.gh := by rw [Nat.add_mul]; omega
+  rw [e1, e3, e2]
+
+/-- **write_frame (pixel)** — for every depth, font in the domain, character, colours and 32-bit
+coordinates: inside the grid exactly the colour bytes of the `gw × gh` pixels of the addressed
+cell change — pixels whose glyph bit is set to the packed foreground colour, the others to the
+packed background colour; every other byte (other cells, left-over rows/columns, padding, logo
+rows) keeps its value; outside the grid nothing changes; never a panic. -/
+theorem pix_write_frame (c : VesaFb.Cons) (f : VesaFb.Font) (fb : Array UInt8) (ok : PixOk c f fb) (fok : FontOk f)
+    (ch fg bg x y : Nat) (hch : ch < 256) (hfg : fg < 256) (hbg : bg < 256)
+    (hx : x < 4294967296) (hy : y < 4294967296) :
+    ∃ fb', VesaFb.write c fb ch fg bg x y = some fb' ∧ fb'.size = fb.size ∧
+      ∀ i, i < fb.size → view8 fb' i = pixWrite c f (view8 fb) ch fg bg x y i := by
+  by_cases hg : x < 1 ∨ x > c.cols ∨ y < 1 ∨ y > c.rows
+  · obtain ⟨h1, h2⟩ := pix_write_outside c fb ch fg bg x y (Or.inr hg)
+    exact ⟨fb, h1, rfl, fun i _ => (h2 f ok.font i).symm⟩
+  · have hin : 1 ≤ x ∧ x ≤ c.cols ∧ 1 ≤ y ∧ y ≤ c.rows := by omega
+    obtain ⟨fgC, hf1, hf2, hf3, hle⟩ := pixelBytes_len ok fg hfg
+    obtain ⟨bgC, hb1, hb2, hb3, _⟩ := pixelBytes_len ok bg hbg
+    obtain ⟨g1, g2, g3, g4, g5, g6, g7, g8⟩ := geom ok
+    have hstep : (if c.bpp = 8 then 1 else c.bytesPerPixel) = c.bytesPerPixel := by
+      rcases bytes_cases ok with h | h | h | h | h <;> simp [h.1, h.2]
+    -- the glyph's data
+    have hB : ch * f.bpr * f.gh + f.gh * f.bpr ≤ f.data.size := by
+      rw [fok.size, Nat.mul_assoc, Nat.mul_assoc, Nat.mul_comm f.gh f.bpr]
+      have := Nat.mul_le_mul_right (f.bpr * f.gh) (show ch + 1 ≤ 256 by omega)
+      rw [Nat.add_mul, Nat.one_mul] at this
+      exact this
+    have hsm := fok.small
+    have hgpos : 0 < f.gh := ok.gh1
+    have hfo : mul32 (mul32 ch f.bpr) f.gh = ch * f.bpr * f.gh + 0 * f.bpr := by
+      have h1 : ch * f.bpr ≤ ch * f.bpr * f.gh := Nat.le_mul_of_pos_right _ hgpos
+      have e : mul32 ch f.bpr = ch * f.bpr := by unfold mul32; omega
+      rw [e]; unfold mul32; omega
+    obtain ⟨hoff, fb', k1, k2, k3⟩ := pix_rect ok (glyphColor2 f fgC bgC (ch * f.bpr * f.gh)) (nbytes c)
+      (by intro px py; unfold glyphColor2 glyphColor; split <;> assumption) hle x y 1 1 (by omega) (by omega)
+    refine ⟨fb', ?_, k2, fun i hi => ?_⟩
+    · unfold VesaFb.write
+      rw [ok.font]
+      simp only [if_neg hg, hf1, hb1, hstep, hfo, hoff]
+      rw [glyphRows_eq f fgC bgC c.bytesPerPixel c.pitch (ch * f.bpr * f.gh) hsm ok.gw1 (by have := fok.bpr; omega)
+        f.gh fb _ 0 (by rw [Nat.zero_add]; exact hB)]
+      rw [Nat.one_mul, Nat.one_mul] at k1
+      exact k1
+    · rw [k3 i hi]
+      simp only [pixWrite, if_pos hin]
+      have e1 : (x - 1 + 1) * f.gw = x * f.gw := by rw [Nat.sub_add_cancel hin.1]
+      have e2 : (y - 1 + 1) * f.gh = y * f.gh := by rw [Nat.sub_add_cancel hin.2.2.1]
+      rw [e1, e2]
+      have hcol : glyphColor2 f fgC bgC (ch * f.bpr * f.gh) =
+          fun px py => if glyphBit f ch px py = true then colorBytes c fg else colorBytes c bg := by
+        funext px py
+        simp only [glyphColor2, glyphColor, glyphBit, hf2, hb2, decide_eq_true_eq]
+      rw [hcol]
+
 /-- **no_oob (text)** — no text-console operation ever indexes outside the framebuffer, for any
 32-bit arguments. -/
 theorem text_no_oob (c : VgaText.Cons) (fb : Array UInt16) (ok : TextOk c fb)
@@ -534,20 +664,20 @@ theorem text_no_oob (c : VgaText.Cons) (fb : Array UInt16) (ok : TextOk c fb)
   obtain ⟨_, h3, _⟩ := text_scroll_exact c fb ok dir w hw
   rw [h1, h2, h3]; simp
 
-/-- **no_oob (pixel), partial** — `Fill` and `Scroll` never index outside the framebuffer, for
-any 32-bit arguments; `Write` is covered for coordinates outside the grid by
-`pix_write_frame_partial` (in-grid `Write`: correspondence run only). -/
-theorem pix_no_oob_partial (c : VesaFb.Cons) (f : VesaFb.Font) (fb : Array UInt8) (ok : PixOk c f fb)
-    (x y w h fg bg dir : Nat) (hx : x < 4294967296) (hy : y < 4294967296) (hw : w < 4294967296) (hh : h < 4294967296)
-    (hbg : bg < 256) :
-    VesaFb.fill c fb x y w h fg bg ≠ none ∧ VesaFb.scroll c fb dir w ≠ none := by
+/-- **no_oob (pixel)** — `Write`, `Fill` and `Scroll` never index outside the framebuffer, for
+any 32-bit arguments and any 8-bit character/colours. -/
+theorem pix_no_oob (c : VesaFb.Cons) (f : VesaFb.Font) (fb : Array UInt8) (ok : PixOk c f fb) (fok : FontOk f)
+    (ch x y w h fg bg dir : Nat) (hx : x < 4294967296) (hy : y < 4294967296) (hw : w < 4294967296) (hh : h < 4294967296)
+    (hch : ch < 256) (hfg : fg < 256) (hbg : bg < 256) :
+    VesaFb.write c fb ch fg bg x y ≠ none ∧ VesaFb.fill c fb x y w h fg bg ≠ none ∧ VesaFb.scroll c fb dir w ≠ none := by
+  obtain ⟨_, h1, _⟩ := pix_write_frame c f fb ok fok ch fg bg x y hch hfg hbg hx hy
   obtain ⟨_, h2, _⟩ := pix_fill_clip c f fb ok x y w h fg bg hx hy hw hh hbg
   obtain ⟨_, h3, _⟩ := pix_scroll_exact c f fb ok dir w hw
-  rw [h2, h3]; simp
+  rw [h1, h2, h3]; simp
 
 /-- **padding_untouched (pixel), partial** — after `Fill` and `Scroll` (any 32-bit arguments)
 every padding byte (offset within its row ≥ `width*bytesPerPixel`) and every byte of the logo
-rows (row < `offsetY`) holds its old value.  (`Write`: see `pix_write_frame_partial`.) -/
+rows (row < `offsetY`) holds its old value.  (`Write`: see `pix_write_outside`.) -/
 theorem padding_untouched_partial (c : VesaFb.Cons) (f : VesaFb.Font) (fb : Array UInt8) (ok : PixOk c f fb)
     (x y w h bg dir lines i : Nat)
     (hi : c.width * c.bytesPerPixel ≤ i % c.pitch ∨ i / c.pitch < c.offsetY) :
